@@ -3,7 +3,7 @@ ID = 'C16'
 LEVEL = 'proof'
 CONTRACT_MODULES = ['contracts.evals']
 CONE = ['csep.core.binomial_evaluations.binary_joint_log_likelihood_ndarray', 'csep.core.brier_evaluations._brier_score_ndarray']
-ORACLE_MODULES = ['rt.oracles_eval']
+ORACLE_MODULES = ['rt.oracles_eval', 'rt.oracles_contracts']
 BOUNDED = os.path.exists(os.path.join(os.path.dirname(__file__), '..', 'rt', 'bounded_C16.py'))
 FLOAT_MODEL = 'R; log/exp uninterpreted; 1 - poisson.cdf(0, lam) = 1 - exp(-lam) (assumed cdf fact)'
 TRUSTED = ['numpy.ma.masked_where / masked arithmetic: data under the mask is unspecified (havoc) - the proof does not depend on it', 'numpy.nonzero + fancy assignment y[idx] = 1; builtins.sum / ndarray.sum as SUM over the C-order flattening; lemma L4 (sum congruence)', 'pyvc engine, z3 5.1']
